@@ -130,3 +130,24 @@ Definition sums_to_one (win : list Q) : Prop := sumQ win == 1.
 Definition nonneg_window (win : list Q) : Prop := forall c, In c win -> 0 <= c.
 Definition within (lo hi : Q) (l : list Q) : Prop := forall y, In y l -> lo <= y <= hi.
 Definition all_eq (c : Q) (l : list Q) : Prop := forall y, In y l -> y == c.
+
+(* ---- mirrored windows ------------------------------------------------------- *)
+(* the signal x (n values) extended by [wing] mirrored values on either side
+   (x[-1-k] = x[k], x[n+k] = x[n-1-k]): index into x of position j of the extended signal *)
+Definition mirror_idx (n wing j : nat) : nat :=
+  if (j <? wing)%nat then (wing - 1 - j)%nat
+  else if (j <? wing + n)%nat then (j - wing)%nat
+  else (2 * n - 1 - (j - wing))%nat.
+(* the 2 wing + 1 values x[i-wing .. i+wing] around position i, reflected at both ends *)
+Definition mirrored_window (x : list Q) (wing i : nat) : list Q :=
+  map (fun k => nthq (mirror_idx (length x) wing (i + k)) x) (seq 0 (2 * wing + 1)).
+
+(* ---- the weighted median of strictly positive weights, as a function of the multiset --- *)
+(* either one of the values, with less than half of the weight strictly on either side ... *)
+Definition wm_strict (m : Q) (ps : list (Q * Q)) : Prop :=
+  exists p, In p ps /\ m == fst p /\ wbelow m ps < wtotal ps / 2 /\ wabove m ps < wtotal ps / 2.
+(* ... or the midpoint of two values that split the weight exactly in half (nothing lies between them) *)
+Definition wm_split (m : Q) (ps : list (Q * Q)) : Prop :=
+  exists p q, In p ps /\ In q ps /\ fst p < fst q /\ m == (fst p + fst q) / 2 /\
+              wbelow (fst q) ps == wtotal ps / 2 /\ wabove (fst p) ps == wtotal ps / 2.
+Definition wm_determined (m : Q) (ps : list (Q * Q)) : Prop := wm_strict m ps \/ wm_split m ps.
